@@ -15,7 +15,7 @@ import (
 func init() { drivers["c18"] = runC18 }
 
 func runC18(o opts) error {
-	ctx := &c18.Ctx{G: trace.NewInterner(" "), Cov: c18.NewCov()}
+	ctx := &c18.Ctx{G: trace.NewInterner(" "), L: trace.NewInterner(""), Cov: c18.NewCov()}
 	defer ctx.Close()
 	if o.extra == "dump" {
 		ctx.Dump = func(f string, a ...any) { fmt.Fprintf(os.Stderr, f, a...) }
